@@ -491,6 +491,9 @@ func runC11(c *config) {
 	}
 	if c.replay != "" {
 		rp := readReplay(c.replay)
+		if c11TypeHistReplay(c, rp.Detail) {
+			return
+		}
 		name := unhx(rp.Detail["name"].(string))
 		pos, _ := rp.Detail["position"].(string)
 		for _, p := range append(append(append(poss, sposs...), dposs...), c11CharPositions()...) {
@@ -564,6 +567,7 @@ func runC11(c *config) {
 	c11Chars(c, newRng(c.seed, "c11chars"), names)
 	// blocks referred to from outside their function, by name and by ID, among named and unnamed neighbours (c11blockref.go)
 	c11BlockRefs(c, names)
+	c11TypeHistories(c, names) // a type named, then renamed by a field write / on a copy (c11typehist.go)
 	// a name is never mistaken for an ID: unnamed and "numerically named" globals side by side
 	for _, n := range []string{"0", "1", "42"} {
 		m := ir.NewModule()
